@@ -273,22 +273,31 @@ Definition fz_write (z : frozen) : option (list wev) :=
   end.
 
 (** ** Sources *)
+(** How the output of a program reaches the source: written by the child through the descriptor of
+    the output (ContentsViaWriteTo: -stdout-from, and -stderr-from with -ignore-exit-code), or into a
+    file of its own that is then read (ContentsViaFile: -stderr-from without -ignore-exit-code). *)
+Inductive pkind := PFd | PFile.
+
 Inductive src :=
 | SStr (s : text)
     (* string literal / here-document: StringSourceWConstantContents(ContentsOfStr) *)
 | SFile (r : raw)
     (* -contents-of FILE: StringSourceOfFile(StringSourceContentsOfExistingPath) *)
-| SProg (out : raw) (st : cstate)
-    (* -stdout-from PROGRAM: StringSourceWithCachedFrozen(ContentsViaWriteTo(writer running the program)) *)
+| SProg (k : pkind) (g : raw -> raw) (st : cstate) (ins : list src)
+    (* -stdout-from / -stderr-from [-ignore-exit-code] PROGRAM [-stdin ...]: StringSourceWithCachedFrozen over
+       ContentsViaWriteTo(exit_relevant.StdoutWriter | exit_ignored.StdoutWriter | exit_ignored.StderrWriter) or
+       ContentsViaFile(exit_relevant.StderrFileCreator).  [g] maps the bytes on stdin to the captured output;
+       [ins] are the stdin parts (as_stdin.of_sequence). *)
 | SLines (f : lfun) (dep : bool) (path : option raw) (isfz : bool) (u : src)
     (* TransformedStringSourceFromLines: identity, char-case, replace, strip ... *)
 | SFilter (f : lfun) (st : cstate) (u : src)
     (* filter: StringSourceWithCachedFrozen(_ContentsViaAsLines(TransformedContentsViaAsLinesBase)) *)
 | SRun (g : raw -> raw) (st : cstate) (u : src)
     (* run PROGRAM: transformed_string_source_from_writer = StringSourceWithCachedFrozen(ContentsViaWriteTo(
-       writer running the program with stdin = the operand's as_file and stdout = the output's fileno)) *)
-| SConcat (st : cstate) (p1 p2 : src).
-    (* concat.string_source([p1, p2]): StringSourceWithCachedFrozen(_ConcatStringSourceContents) *)
+       writer running the program with stdin = the operand's as_file and stdout = the output's fileno));
+       with -stdin the operand is the concat of the stdin parts and the model *)
+| SConcat (st : cstate) (ps : list src).
+    (* concat.string_source(parts): StringSourceWithCachedFrozen(_ConcatStringSourceContents), any number of parts *)
 
 (** _FreezingStringSourceContents._get_contents: materialise on first use from the unfrozen
     contents' [write_to] ([None] = that raised). *)
@@ -313,12 +322,41 @@ Definition via_frozen {A} (b : N) (st : cstate) (un_write : option (list wev)) (
   : option A * cstate :=
   let (z, st') := cached_get b st un_write in (obind z view, st').
 
-(** ContentsViaWriteTo.write_to of the program source: from the cached file if there is one,
-    else by running the program. *)
-Definition prog_write (out : raw) (st : cstate) : list wev :=
-  match c_path st with
-  | Some r => [WLines (file_lines r)]
-  | None => [WFd out]
+(** Applying a view to every part of a list, left to right, threading the parts' state. *)
+Definition map_st {A} (f : src -> option A * src) : list src -> list (option A) * list src :=
+  fix go (ps : list src) : list (option A) * list src :=
+    match ps with
+    | [] => ([], [])
+    | p :: ps' =>
+        let (v, p') := f p in
+        let (vs, ps'') := go ps' in
+        (v :: vs, p' :: ps'')
+    end.
+
+(** all succeeded / the concatenation of all *)
+Fixpoint oall {A} (vs : list (option A)) : option (list A) :=
+  match vs with
+  | [] => Some []
+  | Some a :: vs' => option_map (cons a) (oall vs')
+  | None :: _ => None
+  end.
+Definition oconcat {A} (vs : list (option (list A))) : option (list A) := option_map (@concat A) (oall vs).
+
+(** The file a program reads / a file observation as text. *)
+Definition ftext (f : option fobs) : option raw :=
+  match f with Some (FText r) => Some r | _ => None end.
+
+(** Unfrozen [write_to] of a program source without cached file, given the bytes on stdin ([None] = preparing
+    stdin raised): ContentsViaWriteTo lets the child write to the descriptor; ContentsViaFile creates (and
+    caches) its file and copies its lines. *)
+Definition prog_write_of (k : pkind) (g : raw -> raw) (st : cstate) (o : option raw) : option (list wev) * cstate :=
+  match option_map g o with
+  | None => (None, st)
+  | Some out =>
+      match k with
+      | PFd => (Some [WFd out], st)
+      | PFile => (Some [WLines (file_lines out)], cs_set_path st out)
+      end
   end.
 
 (** The external program of [run] reads the bytes of a valid text file. *)
@@ -328,7 +366,7 @@ Definition run_on (g : raw -> raw) (f : option fobs) : option (list wev) :=
   | _ => None
   end.
 
-(** *** concat._ConcatStringSourceContents._lines_iter for two parts *)
+(** *** concat._ConcatStringSourceContents._lines_iter *)
 Definition is_nl_ended (l : text) : bool := N.eqb (last l 0) NL.       (* s != '' and s[-1] == '\n' *)
 Definition glue (lst : option text) (s : text) : text :=
   match lst with None => s | Some p => p ++ s end.                       (* append_to_last_line_wo_ending_new_line *)
@@ -342,6 +380,7 @@ Fixpoint concat_rest (ls : list text) (lst : option text) : list text * option t
       else concat_rest ls' (Some l)                 (* last_line_wo_ending_new_line = non_first_line *)
   end.
 
+(** one non-last part *)
 Definition concat_nonlast (ls : list text) (lst : option text) : list text * option text :=
   match ls with
   | [] => ([], lst)
@@ -351,19 +390,23 @@ Definition concat_nonlast (ls : list text) (lst : option text) : list text * opt
       else concat_rest rest (Some (glue lst first))
   end.
 
+(** the last part *)
 Definition concat_last (ls : list text) (lst : option text) : list text :=
   match ls with
   | [] => match lst with Some p => [p] | None => [] end
   | first :: rest => glue lst first :: rest
   end.
 
-Definition concat_lines2 (l1 l2 : list text) : list text :=
-  let (ys, lst) := concat_nonlast l1 None in ys ++ concat_last l2 lst.
-
-Definition olines2 (l1 l2 : option (list text)) : option (list text) :=
-  match l1, l2 with Some a, Some c => Some (concat_lines2 a c) | _, _ => None end.
-Definition oapp {A} (l1 l2 : option (list A)) : option (list A) :=
-  match l1, l2 with Some a, Some c => Some (a ++ c) | _, _ => None end.
+(** all parts: [for non_last_part in self._parts[:-1]] ..., then [self._parts[-1]] ([None]: no part, IndexError) *)
+Fixpoint concat_lines_from (lss : list (list text)) (lst : option text) : option (list text) :=
+  match lss with
+  | [] => None
+  | [ls] => Some (concat_last ls lst)
+  | ls :: lss' =>
+      let (ys, lst') := concat_nonlast ls lst in
+      option_map (app ys) (concat_lines_from lss' lst')
+  end.
+Definition concat_lines_n (lss : list (list text)) : option (list text) := concat_lines_from lss None.
 
 (** The views.  Each returns the value ([None] = the access raised) and the new tree (the state
     of the Python objects after the access).  [s_write] = the events of [contents().write_to(output)]. *)
@@ -371,14 +414,39 @@ Fixpoint s_lines (b : N) (x : src) {struct x} : option (list text) * src :=
   match x with
   | SStr s => (Some (str_lines s), x)
   | SFile r => (Some (file_lines r), x)
-  | SProg out st =>
+  | SProg k g st ins =>
       if c_isfz st
-      then let (v, st') := via_frozen b st (Some (prog_write out st)) fz_lines in (v, SProg out st')
-      else (* ContentsViaWriteTo.as_lines: self.as_file.open() *)
-        match c_path st with
-        | Some r => (Some (file_lines r), x)
-        | None => let r := file_of_events [WFd out] in (Some (file_lines r), SProg out (cs_set_path st r))
-        end
+      then match c_fz st with
+           | Some z => (fz_lines z, x)
+           | None =>
+               match c_path st with
+               | Some r => let (v, st') := via_frozen b st (Some [WLines (file_lines r)]) fz_lines in (v, SProg k g st' ins)
+               | None =>
+                   let (o, ins') := match ins with
+               | [] => (Some [], ins)                                   (* no stdin: DEVNULL *)
+               | [p] => let (f, p') := s_file b p in (ftext f, [p'])    (* one part: its as_file *)
+               | _ => let (ws, ins') := map_st (s_write b) ins in       (* concat(parts, 0).as_file: written afresh *)
+                      (option_map file_of_events (oconcat ws), ins')
+               end in
+                   let (w, st1) := prog_write_of k g st o in
+                   let (v, st') := via_frozen b st1 w fz_lines in (v, SProg k g st' ins')
+               end
+           end
+      else (* as_lines: self.as_file.open() *)
+           match c_path st with
+           | Some r => (Some (file_lines r), x)
+           | None =>
+               let (o, ins') := match ins with
+               | [] => (Some [], ins)                                   (* no stdin: DEVNULL *)
+               | [p] => let (f, p') := s_file b p in (ftext f, [p'])    (* one part: its as_file *)
+               | _ => let (ws, ins') := map_st (s_write b) ins in       (* concat(parts, 0).as_file: written afresh *)
+                      (option_map file_of_events (oconcat ws), ins')
+               end in
+               match option_map g o with                         (* the program writes its output to a new file *)
+               | Some r => (Some (file_lines r), SProg k g (cs_set_path st r) ins')
+               | None => (None, SProg k g st ins')
+               end
+           end
   | SLines f dep path isfz u =>
       let (ls, u') := s_lines b u in (option_map f ls, SLines f dep path isfz u')
   | SFilter f st u =>
@@ -412,30 +480,53 @@ Fixpoint s_lines (b : N) (x : src) {struct x} : option (list text) * src :=
                | None => (None, SRun g st u')
                end
            end
-  | SConcat st p1 p2 =>
+  | SConcat st ps =>
       if c_isfz st
       then match c_fz st with
            | Some z => (fz_lines z, x)
            | None =>
-               let (w1, p1') := s_write b p1 in
-               let (w2, p2') := s_write b p2 in
-               let (v, st') := via_frozen b st (oapp w1 w2) fz_lines in (v, SConcat st' p1' p2')
+               let (ws, ps') := map_st (s_write b) ps in
+               let (v, st') := via_frozen b st (oconcat ws) fz_lines in (v, SConcat st' ps')
            end
-      else let (l1, p1') := s_lines b p1 in
-           let (l2, p2') := s_lines b p2 in
-           (olines2 l1 l2, SConcat st p1' p2')
+      else let (ls, ps') := map_st (s_lines b) ps in
+           (obind (oall ls) concat_lines_n, SConcat st ps')
   end
 
 with s_file (b : N) (x : src) {struct x} : option fobs * src :=
   match x with
   | SStr s => (Some (FText (file_of_events [WStr s])), x)
   | SFile r => (Some (FText r), x)
-  | SProg out st =>
+  | SProg k g st ins =>
       if c_isfz st
-      then let (v, st') := via_frozen b st (Some (prog_write out st)) fz_file in (v, SProg out st')
+      then match c_fz st with
+           | Some z => (fz_file z, x)
+           | None =>
+               match c_path st with
+               | Some r => let (v, st') := via_frozen b st (Some [WLines (file_lines r)]) fz_file in (v, SProg k g st' ins)
+               | None =>
+                   let (o, ins') := match ins with
+               | [] => (Some [], ins)                                   (* no stdin: DEVNULL *)
+               | [p] => let (f, p') := s_file b p in (ftext f, [p'])    (* one part: its as_file *)
+               | _ => let (ws, ins') := map_st (s_write b) ins in       (* concat(parts, 0).as_file: written afresh *)
+                      (option_map file_of_events (oconcat ws), ins')
+               end in
+                   let (w, st1) := prog_write_of k g st o in
+                   let (v, st') := via_frozen b st1 w fz_file in (v, SProg k g st' ins')
+               end
+           end
       else match c_path st with
            | Some r => (Some (FText r), x)
-           | None => let r := file_of_events [WFd out] in (Some (FText r), SProg out (cs_set_path st r))
+           | None =>
+               let (o, ins') := match ins with
+               | [] => (Some [], ins)                                   (* no stdin: DEVNULL *)
+               | [p] => let (f, p') := s_file b p in (ftext f, [p'])    (* one part: its as_file *)
+               | _ => let (ws, ins') := map_st (s_write b) ins in       (* concat(parts, 0).as_file: written afresh *)
+                      (option_map file_of_events (oconcat ws), ins')
+               end in
+               match option_map g o with                         (* the program writes its output to a new file *)
+               | Some r => (Some (FText r), SProg k g (cs_set_path st r) ins')
+               | None => (None, SProg k g st ins')
+               end
            end
   | SLines f dep path isfz u =>
       match path with
@@ -488,23 +579,21 @@ with s_file (b : N) (x : src) {struct x} : option fobs * src :=
                | None => (None, SRun g st u')
                end
            end
-  | SConcat st p1 p2 =>
+  | SConcat st ps =>
       if c_isfz st
       then match c_fz st with
            | Some z => (fz_file z, x)
            | None =>
-               let (w1, p1') := s_write b p1 in
-               let (w2, p2') := s_write b p2 in
-               let (v, st') := via_frozen b st (oapp w1 w2) fz_file in (v, SConcat st' p1' p2')
+               let (ws, ps') := map_st (s_write b) ps in
+               let (v, st') := via_frozen b st (oconcat ws) fz_file in (v, SConcat st' ps')
            end
       else match c_path st with
            | Some r => (Some (FText r), x)
            | None =>
-               let (w1, p1') := s_write b p1 in
-               let (w2, p2') := s_write b p2 in
-               match oapp w1 w2 with
-               | Some evs => let r := file_of_events evs in (Some (FText r), SConcat (cs_set_path st r) p1' p2')
-               | None => (None, SConcat st p1' p2')
+               let (ws, ps') := map_st (s_write b) ps in
+               match oconcat ws with
+               | Some evs => let r := file_of_events evs in (Some (FText r), SConcat (cs_set_path st r) ps')
+               | None => (None, SConcat st ps')
                end
            end
   end
@@ -513,10 +602,35 @@ with s_write (b : N) (x : src) {struct x} : option (list wev) * src :=
   match x with
   | SStr s => (Some [WStr s], x)
   | SFile r => (Some [WLines (file_lines r)], x)
-  | SProg out st =>
+  | SProg k g st ins =>
       if c_isfz st
-      then let (v, st') := via_frozen b st (Some (prog_write out st)) fz_write in (v, SProg out st')
-      else (Some (prog_write out st), x)
+      then match c_fz st with
+           | Some z => (fz_write z, x)
+           | None =>
+               match c_path st with
+               | Some r => let (v, st') := via_frozen b st (Some [WLines (file_lines r)]) fz_write in (v, SProg k g st' ins)
+               | None =>
+                   let (o, ins') := match ins with
+               | [] => (Some [], ins)                                   (* no stdin: DEVNULL *)
+               | [p] => let (f, p') := s_file b p in (ftext f, [p'])    (* one part: its as_file *)
+               | _ => let (ws, ins') := map_st (s_write b) ins in       (* concat(parts, 0).as_file: written afresh *)
+                      (option_map file_of_events (oconcat ws), ins')
+               end in
+                   let (w, st1) := prog_write_of k g st o in
+                   let (v, st') := via_frozen b st1 w fz_write in (v, SProg k g st' ins')
+               end
+           end
+      else match c_path st with
+           | Some r => (Some [WLines (file_lines r)], x)         (* the cached file is copied *)
+           | None =>
+               let (o, ins') := match ins with
+               | [] => (Some [], ins)                                   (* no stdin: DEVNULL *)
+               | [p] => let (f, p') := s_file b p in (ftext f, [p'])    (* one part: its as_file *)
+               | _ => let (ws, ins') := map_st (s_write b) ins in       (* concat(parts, 0).as_file: written afresh *)
+                      (option_map file_of_events (oconcat ws), ins')
+               end in
+               let (w, st1) := prog_write_of k g st o in (w, SProg k g st1 ins')
+           end
   | SLines f dep path isfz u =>
       let (ls, u') := s_lines b u in (option_map (fun l => [WLines (f l)]) ls, SLines f dep path isfz u')
   | SFilter f st u =>
@@ -545,32 +659,44 @@ with s_write (b : N) (x : src) {struct x} : option (list wev) * src :=
            | Some r => (Some [WLines (file_lines r)], x)
            | None => let (fu, u') := s_file b u in (run_on g fu, SRun g st u')
            end
-  | SConcat st p1 p2 =>
+  | SConcat st ps =>
       if c_isfz st
       then match c_fz st with
            | Some z => (fz_write z, x)
            | None =>
-               let (w1, p1') := s_write b p1 in
-               let (w2, p2') := s_write b p2 in
-               let (v, st') := via_frozen b st (oapp w1 w2) fz_write in (v, SConcat st' p1' p2')
+               let (ws, ps') := map_st (s_write b) ps in
+               let (v, st') := via_frozen b st (oconcat ws) fz_write in (v, SConcat st' ps')
            end
-      else let (w1, p1') := s_write b p1 in
-           let (w2, p2') := s_write b p2 in
-           (oapp w1 w2, SConcat st p1' p2')
+      else let (ws, ps') := map_st (s_write b) ps in (oconcat ws, SConcat st ps')
   end.
 
-(** ContentsViaWriteTo.as_str (unfrozen program / run): read [as_file] in text mode. *)
+(** ContentsViaWriteTo / ContentsViaFile .as_str (unfrozen program / run): read [as_file] in text mode. *)
 Definition str_via_file (b : N) (x : src) : option text * src :=
   let (f, x') := s_file b x in
-  (match f with Some (FText r) => Some (read_text r) | _ => None end, x').
+  (option_map read_text (ftext f), x').
 
 Definition s_str (b : N) (x : src) : option text * src :=
   match x with
   | SStr s => (Some s, x)
   | SFile r => (Some (read_text r), x)
-  | SProg out st =>
+  | SProg k g st ins =>
       if c_isfz st
-      then let (v, st') := via_frozen b st (Some (prog_write out st)) fz_str in (v, SProg out st')
+      then match c_fz st with
+           | Some z => (fz_str z, x)
+           | None =>
+               match c_path st with
+               | Some r => let (v, st') := via_frozen b st (Some [WLines (file_lines r)]) fz_str in (v, SProg k g st' ins)
+               | None =>
+                   let (o, ins') := match ins with
+               | [] => (Some [], ins)                                   (* no stdin: DEVNULL *)
+               | [p] => let (f, p') := s_file b p in (ftext f, [p'])    (* one part: its as_file *)
+               | _ => let (ws, ins') := map_st (s_write b) ins in       (* concat(parts, 0).as_file: written afresh *)
+                      (option_map file_of_events (oconcat ws), ins')
+               end in
+                   let (w, st1) := prog_write_of k g st o in
+                   let (v, st') := via_frozen b st1 w fz_str in (v, SProg k g st' ins')
+               end
+           end
       else str_via_file b x
   | SLines f dep path isfz u =>
       let (ls, u') := s_lines b u in (option_map (fun l => concat (f l)) ls, SLines f dep path isfz u')
@@ -597,18 +723,16 @@ Definition s_str (b : N) (x : src) : option text * src :=
                end
            end
       else str_via_file b x
-  | SConcat st p1 p2 =>
+  | SConcat st ps =>
       if c_isfz st
       then match c_fz st with
            | Some z => (fz_str z, x)
            | None =>
-               let (w1, p1') := s_write b p1 in
-               let (w2, p2') := s_write b p2 in
-               let (v, st') := via_frozen b st (oapp w1 w2) fz_str in (v, SConcat st' p1' p2')
+               let (ws, ps') := map_st (s_write b) ps in
+               let (v, st') := via_frozen b st (oconcat ws) fz_str in (v, SConcat st' ps')
            end
-      else let (l1, p1') := s_lines b p1 in
-           let (l2, p2') := s_lines b p2 in
-           (option_map (@concat char) (olines2 l1 l2), SConcat st p1' p2')
+      else let (ls, ps') := map_st (s_lines b) ps in
+           (option_map (@concat char) (obind (oall ls) concat_lines_n), SConcat st ps')
   end.
 
 (** may_depend_on_external_resources *)
@@ -616,9 +740,24 @@ Fixpoint s_dep (b : N) (x : src) {struct x} : option bool * src :=
   match x with
   | SStr _ => (Some false, x)
   | SFile _ => (Some true, x)
-  | SProg out st =>
+  | SProg k g st ins =>
       if c_isfz st
-      then let (v, st') := via_frozen b st (Some (prog_write out st)) fz_dep in (v, SProg out st')
+      then match c_fz st with
+           | Some z => (fz_dep z, x)
+           | None =>
+               match c_path st with
+               | Some r => let (v, st') := via_frozen b st (Some [WLines (file_lines r)]) fz_dep in (v, SProg k g st' ins)
+               | None =>
+                   let (o, ins') := match ins with
+               | [] => (Some [], ins)                                   (* no stdin: DEVNULL *)
+               | [p] => let (f, p') := s_file b p in (ftext f, [p'])    (* one part: its as_file *)
+               | _ => let (ws, ins') := map_st (s_write b) ins in       (* concat(parts, 0).as_file: written afresh *)
+                      (option_map file_of_events (oconcat ws), ins')
+               end in
+                   let (w, st1) := prog_write_of k g st o in
+                   let (v, st') := via_frozen b st1 w fz_dep in (v, SProg k g st' ins')
+               end
+           end
       else (Some true, x)
   | SLines f dep path isfz u =>
       if dep then (Some true, x)       (* `or` short-circuits *)
@@ -646,19 +785,17 @@ Fixpoint s_dep (b : N) (x : src) {struct x} : option bool * src :=
                end
            end
       else (Some true, x)
-  | SConcat st p1 p2 =>
+  | SConcat st ps =>
       if c_isfz st
       then match c_fz st with
            | Some z => (fz_dep z, x)
            | None =>
-               let (w1, p1') := s_write b p1 in
-               let (w2, p2') := s_write b p2 in
-               let (v, st') := via_frozen b st (oapp w1 w2) fz_dep in (v, SConcat st' p1' p2')
+               let (ws, ps') := map_st (s_write b) ps in
+               let (v, st') := via_frozen b st (oconcat ws) fz_dep in (v, SConcat st' ps')
            end
       else (* any([part.contents().may_depend_on_external_resources for part in parts]): no short cut *)
-           let (d1, p1') := s_dep b p1 in
-           let (d2, p2') := s_dep b p2 in
-           (match d1, d2 with Some a, Some c => Some (a || c) | _, _ => None end, SConcat st p1' p2')
+           let (ds, ps') := map_st (s_dep b) ps in
+           (option_map (existsb (fun d => d)) (oall ds), SConcat st ps')
   end.
 
 (** StringSource.freeze() *)
@@ -666,13 +803,13 @@ Fixpoint s_freeze (x : src) : src :=
   match x with
   | SStr _ => x
   | SFile _ => x
-  | SProg out st => SProg out (cs_freeze st)
+  | SProg k g st ins => SProg k g (cs_freeze st) ins
   | SLines f dep path isfz u =>
       if isfz then x
       else SLines f dep None true (s_freeze u)   (* transformed.freeze(); self._contents = self._new_contents() *)
   | SFilter f st u => SFilter f (cs_freeze st) u   (* the operand is NOT frozen *)
   | SRun g st u => SRun g (cs_freeze st) u
-  | SConcat st p1 p2 => SConcat (cs_freeze st) p1 p2
+  | SConcat st ps => SConcat (cs_freeze st) ps
   end.
 
 (** ** Access sequences *)
@@ -773,6 +910,8 @@ Fixpoint subst_go (pat rep : text) (skip : nat) (s : text) : text :=
 Definition subst (pat rep : text) : text -> text := subst_go pat rep 0.
 
 (** External programs used by the correspondence cases (functions on the bytes of valid texts). *)
+Definition g_const (out : raw) : raw -> raw := fun _ => out.                         (* cat FILE, no stdin *)
+Definition g_prefix (out : raw) : raw -> raw := fun r => out ++ r.                   (* cat FILE - *)
 Definition g_cat : raw -> raw := fun r => r.                                         (* cat *)
 Definition swap_ab (c : char) : char := if c =? 97 then 98 else if c =? 98 then 97 else c.
 Definition g_tr_ab : raw -> raw := map swap_ab.                                      (* tr ab ba *)
